@@ -226,7 +226,27 @@ def relSlice (t : SliceIn Float) (impl : List String) : List (String × Bool) :=
          | none => none
          | some k => specDim (axisOf d) n (n + 48) t.rm (applyScale k s) (applyScale k e) (s == e))   -- start = end: the single element at or after it
       | none, none => if covers d n then some (some (0, n)) else none
-      | _, _ => none     -- only one of start / end given: not evaluated here
+      | some s, none =>
+        -- only the start is given: from the start to the last element, which is included
+        let unit := match t.units[i]? with | some u => u | none => d.unitOrNone
+        if n == 0 || !covers d n then none else
+        (match scaleOf unit d.unitOrNone with
+         | none => none
+         | some k =>
+           let last := (axisOf d).coord (n - 1)
+           if last < applyScale k s then some none else
+             -- start == (filled-in) end is a point request, as for a given pair
+             specDim (axisOf d) n (n + 48) .inclusive (applyScale k s) last (applyScale k s == last))
+      | none, some e =>
+        -- only the end is given: from the first element to the end (closed or half-open as requested)
+        let unit := match t.units[i]? with | some u => u | none => d.unitOrNone
+        if n == 0 || !covers d n then none else
+        (match scaleOf unit d.unitOrNone with
+         | none => none
+         | some k =>
+           let first := (axisOf d).coord 0
+           if applyScale k e < first then some none else
+             specDim (axisOf d) n (n + 48) t.rm first (applyScale k e) (applyScale k e == first))
     | _, _ => none
   if exps.any (·.isNone) then [] else
   let exps := exps.filterMap id
